@@ -24,7 +24,8 @@ fn tls_builder(server: bool) -> Result<boring::ssl::SslContextBuilder, boring::e
         for c in certs.iter().skip(1) {
             b.add_extra_chain_cert(c.clone())?;
         }
-        b.set_private_key(&PKey::private_key_from_pem(certificates::KEY_PEM.as_bytes())?)?;
+        let key = PKey::private_key_from_pem(certificates::KEY_PEM.as_bytes())?;
+        b.set_private_key(&key)?;
     } else {
         // the client trusts the repository's test certificate, like the s2n-quic test client does
         for c in certs {
